@@ -133,6 +133,8 @@ def random_case(r):
     # scale: the real data are pts / sc (sc a power of two, exact): sub-unit clouds, e.g. span 8 at sc 16 is [0,1]^d
     sc = unit if unit else r.choice([1, 1, 4, 16, 64])
     ks = sorted({0, 1, 2, 3, n // 2, n - 1, n, n + 1, r.randint(1, n)})
+    # k far beyond n (codes: -1 usize::MAX, -2 usize::MAX/2, -3 2^32, -4 10^12; <= -3 run in a child process)
+    ks += [-1, -2, r.choice([-3, -4])]
     ds = [_reduced(metric, p, q) for p in pts]
     r8s = {0}
     for D in r.sample(ds, min(4, len(ds))) + [min(ds), max(ds)]:
@@ -189,7 +191,7 @@ def run(ctx):
                 "the others a seeded 1/stride sample of the full product; plus the same lattices divided by 4 and 16 = sub-unit leaf "
                 "spheres) [+ seeded random clustered/duplicated clouds and dyadic clouds in [0,1]^d, n<=90, dim<=16, scales 1..64, "
                 "in the thorough tier]; every case is run on linear scan, k-d tree and ball tree at every leaf size, "
-                "f32/f64, several layouts and calling forms, with all k in 0..n+1 and radii on / between / beyond the attained "
+                "f32/f64, several layouts and calling forms, with all k in 0..n+1 plus k = usize::MAX, usize::MAX/2, 2^32 (codes -1, -2, -3) and radii on / between / beyond the attained "
                 "distances; non-trivial = n >= 2 and at least one tree session whose leaf size is < n (tree with >= 2 nodes); "
                 "distinct by (points, query, metric)")
     ctx.trusted = ["TLC + CommunityModules Json", "harness encoding of results and parsing of BallTreeIndex's Debug output "
